@@ -361,7 +361,8 @@ def replay_stager(case: Dict[str, Any]) -> List[Dict[str, Any]]:
                               "cause": "non-monotone-arrival" if explained else ("monotone-arrival" if mono else "unexplained-order"),
                               "L": L,
                               "msg": f"limit {L} units: file {ORD2NAME[bad[0]]} receives records in order {pf.get(bad[0])}, "
-                                     f"with an unbounded stager {ref_pf.get(bad[0])} (a back-pressure flush wrote the larger key first)"})
+                                     f"with an unbounded stager {ref_pf.get(bad[0])}"
+                                     + (" (the earlier back-pressure flush already wrote the larger key)" if explained else "")})
         # --- conformance with the model of the documented mechanism ---
         got = {"at": r["at"], "bp": r["bp"], "nb": len(r["batches"])}
         if (out != want_out or got != want) and not any(f["clause"] == "DrainSorted" for f in local):
